@@ -8,7 +8,11 @@ Record acase := mkACase {
   ac_expect_fail : bool;     (* the generator made the (admitted) messages fail in their handler: not an admin *)
   ac_class : tclass; ac_oracle_changed : bool; ac_settle_changed : bool; ac_val_added : bool;
   ac_payer_delta : list (bytes * Z); ac_coll_delta : list (bytes * Z); ac_pool_delta : list (bytes * Z);
-  ac_gas_used : Z }.
+  ac_gas_used : Z;
+  (* the fee granter named by the transaction; the allowance it has given the payer (None: none, Some None: without
+     limit, Some (Some l): spend limit l); [ac_payer_delta] is the delta of the account that has to pay (the granter
+     when one is named); [ac_payer_untouched]: a payer that is not that account was not debited *)
+  ac_granter : option Z; ac_allowance : option (option (list (bytes * Z))); ac_payer_untouched : bool }.
 
 Definition smsgs_of (ms : list tmsg) : list smsg :=
   concat (map (fun m => match m with TLeaf (LSettle s) => [s] | _ => [] end) ms).
@@ -16,9 +20,28 @@ Definition smsgs_of (ms : list tmsg) : list smsg :=
 Definition charge (c : acase) : option (bytes * Z) :=
   pick_fee (fp_prices (ac_fp c)) (ac_offered c) (gas_cost (smsgs_of (ac_msgs c))).
 
+(* UseGrantedFees is asked for the fee that is charged: the fixed fee of a settlement transaction, nothing for an oracle
+   transaction (generated cases name a granter on the settlus route only) *)
+Definition grant_ok (c : acase) : bool :=
+  match ac_granter c with
+  | None => true
+  | Some g =>
+      if g =? ac_fee_payer c then true
+      else match ac_allowance c with
+           | None => false
+           | Some None => true
+           | Some (Some lim) =>
+               if is_oracle_tx (ac_msgs c) then true
+               else match charge c with
+                    | Some (d, fee) => fee <=? coin_get lim d
+                    | None => true        (* refused by the fee rule before the allowance is looked at *)
+                    end
+           end
+  end.
+
 Definition ac_tx (c : acase) : txctx :=
   mkTx (ac_msgs c) (ac_fee_payer c) (ac_signers c)
-       (match charge c with Some _ => true | None => false end).
+       (match charge c with Some _ => true | None => false end) (grant_ok c).
 
 (* every message of a generated case is built so that its handler succeeds: admitted <-> code 0 *)
 Definition ante_cmp (c : acase) : list Z :=
@@ -49,7 +72,8 @@ Definition authorised_b (o : ostate) (signers : list Z) (m : omsg) : bool :=
     5 a settlement message was executed in a transaction that is not a pure settlement transaction
     6 a pure settlement transaction was accepted but the payer was not charged the fixed fee in the first
       covered denomination, split floor(f(1-q)) / floor(f q) between collector and oracle pool
-    7 ... or was charged although it was rejected by the fee rule      8 gas used <> fixed gas cost *)
+    7 ... or was charged although it was rejected by the fee rule      8 gas used <> fixed gas cost
+    9 a fee granter was named and the fee payer was debited as well *)
 Definition fee_charged_ok (c : acase) : list Z :=
   match charge c with
   | Some (d, fee) =>
@@ -58,7 +82,9 @@ Definition fee_charged_ok (c : acase) : list Z :=
          && (coin_get (ac_payer_delta c) d =? - (coll + pool))
          && forallb (fun x : bytes * Z => bytes_eqb (fst x) d || (snd x =? 0)) (ac_coll_delta c)
          && forallb (fun x : bytes * Z => bytes_eqb (fst x) d || (snd x =? 0)) (ac_pool_delta c)
-      then (if negb (tclass_eqb (ac_class c) COk) || (ac_gas_used c =? gas_cost (smsgs_of (ac_msgs c))) then [] else [8]) else [6]
+      then (if negb (tclass_eqb (ac_class c) COk) || (ac_gas_used c =? gas_cost (smsgs_of (ac_msgs c))) then [] else [8])
+           ++ (if ac_payer_untouched c then [] else [9])
+      else [6]
   | None => [6]
   end.
 
@@ -81,4 +107,4 @@ Definition ante_prop (c : acase) : list Z :=
 Definition ante_check := indexed_failures ante_prop.
 Definition ante_check_C03 (l : list acase) := indexed_failures (fun c => filter (fun x => x =? 3) (ante_prop c)) l.
 Definition ante_check_C04 (l : list acase) := indexed_failures (fun c => filter (fun x => (x =? 4) || (x =? 5)) (ante_prop c)) l.
-Definition ante_check_C16 (l : list acase) := indexed_failures (fun c => filter (fun x => (6 <=? x) && (x <=? 8)) (ante_prop c)) l.
+Definition ante_check_C16 (l : list acase) := indexed_failures (fun c => filter (fun x => (6 <=? x) && (x <=? 9)) (ante_prop c)) l.
